@@ -18,6 +18,7 @@ import (
 	"go/token"
 	"go/types"
 	"strings"
+	"sync/atomic"
 
 	"golang.org/x/tools/go/ssa"
 )
@@ -175,11 +176,10 @@ func zeroOf(t types.Type, path string) sv {
 
 // allocation names are unique across contexts, so that memories of different
 // evaluations can be combined without collisions
-var symAllocCounter int
+var symAllocCounter int64
 
 func (c *symCtx) fresh(prefix string) string {
-	symAllocCounter++
-	return fmt.Sprintf("%s:%d", prefix, symAllocCounter)
+	return fmt.Sprintf("%s:%d", prefix, atomic.AddInt64(&symAllocCounter, 1))
 }
 
 // evalPure evaluates fn on args.  ok=false when the function leaves the
@@ -411,7 +411,12 @@ func (c *symCtx) evalPure(fn *ssa.Function, args []sv, free []sv, depth int) ([]
 					v.i = truncInt(v.i, x.Type(), c.p.U.Sizes)
 				}
 				if v.k == 's' {
-					v.b = false // string <-> []byte: a copy of the same content
+					// string <-> []byte: a copy of the same content.  []rune(s), string(runes): the length of the result
+					// is a function of the content, which the abstract domain does not carry
+					if !lengthPreservingConv(x.X.Type(), x.Type()) && v.i > 0 {
+						return nil, c.fail("conversion %s → %s at %s changes the length depending on the content", typeStr(x.X.Type()), typeStr(x.Type()), c.p.Pos(ins.Pos()))
+					}
+					v.b = false
 				}
 				regs[x] = v
 			case *ssa.MakeInterface:
@@ -911,4 +916,20 @@ func (c *symCtx) aliasElem(dst, src string, has bool) {
 // newSym creates an evaluation context.
 func (p *Prog) newSym(input symInput) *symCtx {
 	return &symCtx{p: p, input: input, mem: map[string]sv{}, maps: map[string][]mapEntry{}, seen: map[string]types.Type{}, opaqueNonNil: map[string]bool{}}
+}
+
+// lengthPreservingConv: a conversion between string and []byte (in either direction, or between named forms of
+// them) keeps the length.
+func lengthPreservingConv(from, to types.Type) bool {
+	ok := func(t types.Type) bool {
+		switch u := t.Underlying().(type) {
+		case *types.Basic:
+			return u.Info()&types.IsString != 0
+		case *types.Slice:
+			b, isB := u.Elem().Underlying().(*types.Basic)
+			return isB && b.Kind() == types.Uint8
+		}
+		return false
+	}
+	return ok(from) && ok(to)
 }
